@@ -44,6 +44,10 @@ def run(ctx):
                     expect_violation="C22")
     ctx.model_check("dev_ltreset", "MCSubs", dict(mc, DevNoLtReset=True, MaxDepth=10), ["C22"], view="MView",
                     expect_violation="C22")
+    # ModifySubscription changes interval and counts in mid-flight (both counters restart)
+    mcm = consts(Acts={"CreateSub", "Pub", "Tick", "ModifySub"}, KAs={1, 2}, LtExtra={0, 1}, Itvs={1, 2}, Ens={True}, Dts={1},
+                 MaxDepth=9 if q else 11, Mons={"C22"})
+    ctx.model_check("design_modify", "MCSubs", mcm, ["C22"], view="MView")
     gens = []
     # (1) every interleaving of publish requests and timer ticks up to a small depth
     g1 = consts(Acts={"CreateSub", "Pub", "Tick"}, KAs={1, 2}, LtExtra={0}, Ens={True, False}, MaxDepth=8 if q else 11)
@@ -54,9 +58,14 @@ def run(ctx):
     g2 = consts(Scripts=scripts(sc), MaxDepth=400)
     h, r = ctx.gen("supply", "GenSubs", g2)
     gens.append(("supply", to_cases(h)))
+    # (2b) interleavings with ModifySubscription
+    g2b = consts(Acts={"Pub", "Tick", "ModifySub"}, Scripts=scripts([[["CreateSub", 1, 2, 6, True, 0, 1]], [["CreateSub", 1, 1, 3, True, 0, 2]]]),
+                 KAs={1, 2}, LtExtra={0}, Itvs={1, 2}, MaxDepth=7 if q else 9)
+    h, r = ctx.gen("modify", "GenSubs", g2b)
+    gens.append(("modify", to_cases(take(h, 1200 if q else 40000, ctx.seed), start=500000)))
     # (3) random long behaviours (simulation)
     n = 300 if q else 4000
-    g3 = consts(Acts={"CreateSub", "Pub", "Tick"}, KAs=kas, LtExtra=extras, Ens={True, False}, Dts={0, 1, 2}, MaxDepth=40)
+    g3 = consts(Acts={"CreateSub", "Pub", "Tick", "ModifySub"}, KAs=kas, LtExtra=extras, Itvs={1, 2}, Ens={True, False}, Dts={0, 1, 2}, MaxDepth=40)
     h, r = ctx.gen("random", "GenSubs", g3, simulate="num=%d" % n)
     gens.append(("random", to_cases(take(h, n, ctx.seed))))
     ctx.cov["exhaustive"] = True
